@@ -298,12 +298,20 @@ def binding_selftest(ctx, module, cfg, overrides, trace, corrupt_obs, replayer, 
     del dropped["ev"][0]
     accepted, _inv = framework._validate_shards(spec_dir, module, cfgp, [good, bad_obs, dropped], 1, ctx.scratch,
                                                 ctx.pick(900, 3000), verbose=False)
+    if 1 not in accepted:
+        # the tree under test misbehaves on the fixed run itself: that is a verdict, not a machinery
+        # failure - report it through the normal channel and skip the self-test
+        ctx.validate(os.path.basename(spec_dir), module, cfg, [good], overrides=overrides, label="c2s-fixed-run",
+                     timeout=ctx.pick(900, 3000))
+        ctx.cov["binding_selftest"] = "skipped: the fixed run is itself rejected by %s (reported as a violation)" % module
+        return
     if accepted != {1}:
         raise Machinery("binding self-test of %s: accepted %s, expected only the uncorrupted trace" % (module, sorted(accepted)))
     extra = {"cfg": trace["cfg"]}
     path = [{"act": e["a"], "args": e["args"], "exp": canon(e["obs"])} for e in trace["ev"]]
     if replayer(extra, path) is not None:
-        raise Machinery("binding self-test of %s: the replayer diverges on its own recording" % module)
+        ctx.cov["binding_selftest"] = "trace direction ok; replay direction skipped (the replay of the fixed run diverges, see violations)"
+        return
     path[k] = dict(path[k], exp=canon(corrupt_obs(copy.deepcopy(path[k]["exp"]))))
     d = replayer(extra, path)
     if d is None or d.get("step") != k:
